@@ -53,6 +53,7 @@ type Ctx struct {
 	start   time.Time
 	configs []string
 	Quiet   bool
+	closed  bool
 }
 
 // ProcessStart is when the checker process started (load time is part of a check's cost).
@@ -150,9 +151,13 @@ func LoadFindings(verif string) ([]Finding, error) {
 	return fs, nil
 }
 
-// Finish prints diagnostics, writes evidence and returns the exit code.
-func (c *Ctx) Finish() int {
-	// minimum-instance obligations
+// CloseMinimums records an UNRESOLVED obligation for every rule that matched
+// fewer instances than its declared minimum (idempotent).
+func (c *Ctx) CloseMinimums() {
+	if c.closed {
+		return
+	}
+	c.closed = true
 	for _, r := range c.ruleOrd {
 		n := c.Count(r)
 		if n < c.mins[r] {
@@ -160,6 +165,11 @@ func (c *Ctx) Finish() int {
 				fmt.Sprintf("rule matched %d instances, expected at least %d (anchor not resolved or construct removed)", n, c.mins[r]))
 		}
 	}
+}
+
+// Finish prints diagnostics, writes evidence and returns the exit code.
+func (c *Ctx) Finish() int {
+	c.CloseMinimums()
 	for _, o := range c.obs {
 		if _, ok := c.ruleDoc[o.Rule]; !ok {
 			c.ruleDoc[o.Rule] = ""
